@@ -27,14 +27,18 @@ CLAIM = dict(
          "different, non-monotone function on a two-segment path); concatenating the batches of get_K_list gives K_list for every "
          "batch size, every batch has at most k_batch points and none is empty; self_to_path maps every path point to a "
          "result point equal to it modulo a reciprocal lattice vector whenever one exists (the first such), so a "
-         "result computed in ANY completion order is returned in path order.",
+         "result computed in ANY completion order is returned in path order; get_component with an index tuple (a,b,...) "
+         "returns data[...,a,b,...] for every rank, hence get_data(component) along a path holds for every path point "
+         "the requested entry of the single-point tensor (for k-periodic quantities); the forward-loop rule returns "
+         "the reversed-tuple entry: equal on index-symmetric tensors, different on a non-symmetric one.",
     note="Trusted / not modelled: the number of points in dk/length mode (float norm, round) and the Cartesian lengths of "
          "getKline are inputs of the model; numpy linspace/vstack float rounding (compared within 1e-12); the tabulators "
          "themselves, Data_K, run()/process() scheduling and TABresult.__add__ are exercised by the oracle only.",
 )
 TRUSTED = [
     "modelled: Path.from_nodes (nk / nk-list modes exactly; dk / length modes with the per-segment count as input), "
-    "get_refined, getKline (distances as input), get_K_list batching, the index map of TABresult.self_to_path",
+    "get_refined, getKline (distances as input), get_K_list batching, the index map of TABresult.self_to_path, "
+    "get_component for index tuples (peel-last-axis loop) and KBandResult.to_path + get_data along a path",
     "not modelled (oracle only): evaluate_k_path -> run() -> process() (serial / ray), TabulatorAll, TABresult.__add__, "
     "KBandResult.to_path, Data_K evaluation; periodicity of the tabulated quantities in k (C04); component extraction "
     "TABresult.get_data / KBandResult.get_component (tuple, string, trace, norm, sq) for ranks 0-3",
@@ -247,6 +251,16 @@ def _corr_case_body(ctx, rng, add):
         pos += m
     add(f"chunks {len(p.K_list)} {kb}", ";".join(ints(x) for x in idx) or "_",
         dict(fn="get_K_list", n=len(p.K_list), k_batch=kb), "chunks")
+    # ---- get_component for index tuples (rank 1-3, dyadic entries: exact)
+    from wannierberri.result.kbandresult import get_component
+    rank = rng.choice([1, 2, 2, 3])
+    flat = [Fr(rng.randint(-64, 64), 16) for _ in range(3 ** rank)]
+    comp = tuple(rng.randrange(3) for _ in range(rank))
+    with quiet():
+        val = get_component(np.array([float(x) for x in flat]).reshape((3,) * rank), rank, comp)
+    ctx.count(f"corr.get_component.rank{rank}")
+    add(f"comp {rats(flat)} {ints(comp)}", rat(F(float(val))),
+        dict(fn="get_component", rank=rank, flat=[float(x) for x in flat], component=list(comp)), "comp")
     # ---- self_to_path
     # dyadic points (denominator 64) so that `k + integer`, `% 1` and the distances are exact in floats; the path
     # may visit a point twice, also shifted by a reciprocal lattice vector
